@@ -192,6 +192,9 @@ pub open spec fn iso_view(o: Option<Vec<ChangeHash>>) -> Option<Seq<ChangeHash>>
 //@ item rust/automerge/src/autocommit.rs | struct AutoCommit
 
 impl AutoCommit {
+    /// `Transactable::pending_ops` of AutoCommit (trait-impl method; ASSUMED): the ops of the open transaction, 0 if none
+    #[verifier::external_body]
+    pub fn pending_ops(&self) -> (r: usize) ensures self.transaction is None ==> r == 0 { unimplemented!() }
     /// representation invariant (see header)
     pub open spec fn wf(&self) -> bool {
         &&& self.transaction matches Some((_, tx)) ==> tx.based_on() == self.doc.version() && tx.scope() == iso_view(self.isolation)
